@@ -41,6 +41,9 @@ func (d *PathDecoder) bodySchemaCandidates(ctx context.Context, body *hclsyntax.
 		}
 	}
 
+	// the extension attributes count towards the limit
+	count = len(candidates.List)
+
 	if len(schema.Attributes) > 0 {
 		attrNames := sortedAttributeNames(schema.Attributes)
 		for _, name := range attrNames {
